@@ -19,7 +19,7 @@ RULE = ("charts with subsets of the 40 tracks × selections (None, empty, subset
         "non-trivial = a proper non-empty selection or a replaced body; distinct by (chart, selection)")
 
 BAD_BODIES = [["  0 = N 5 0"], ["  5 = N 0 0", "  0 = S 2 1", "  3 = S 2 1"], ["garbage"], ["  10 = N 0 0", "  5 = N 0 0", "  7 = E x"],
-              [], ["  0 = N 7 10", "  0 = N 0 5"], ["  99999999 = N 0 99999999"]]
+              [], ["  0 = N 7 10", "  0 = N 0 5"], ["  99999999 = N 0 99999999"], ["", "garbage"], ["  "], ["", "", "  5 = N 0 0", ""], ["// note", "  5 = N 0 0 // x"]]
 
 
 def split_tracks(dump: str):
